@@ -49,6 +49,14 @@ Definition aipw_mean (f : row -> Q) (l : list row) : Q :=
 Definition aipw_rd (l : list row) : Q := aipw_mean aipw_y1 l - aipw_mean aipw_y0 l.
 Definition aipw_rr (l : list row) : Q := aipw_mean aipw_y1 l / aipw_mean aipw_y0 l.
 
+(* the arrays as aipw_calculator's estimate lines see them: pseudo-outcomes (None = NaN) and the weight *)
+Record prow := { p_y1 : option Q; p_y0 : option Q; p_w : Q }.
+Definition has1 (r : prow) : bool := match p_y1 r with Some _ => true | None => false end.
+Definition has0 (r : prow) : bool := match p_y0 r with Some _ => true | None => false end.
+Definition both (r : prow) : bool := has1 r && has0 r.
+Definition v1 (r : prow) : Q := match p_y1 r with Some x => x | None => 0 end.
+Definition v0 (r : prow) : Q := match p_y0 r with Some x => x | None => 0 end.
+
 (* ---- TMLE plug-in: q1/q0 of a row hold the TARGETED predictions Q*1, Q*0; all rows are averaged *)
 Definition tmle_mean (a : bool) (l : list row) : Q := Qsum (qa a) l / Qlen l.
 Definition tmle_rd (l : list row) : Q := tmle_mean true l - tmle_mean false l.
